@@ -9,10 +9,32 @@ HARNESS = os.path.join(core.VERIF, "harness", "h_client.py")
 TEMPL = "gapic/templates/%namespace/%name_%version/%sub/services/%service/"
 
 
-def render(chk):
+def syntax_errors(g, everything=False):
+    """emitted .py files of a rendered program that CPython cannot compile (concrete): {file: message}.
+    Default: the library package only (what the harness lifts from); everything=True adds samples, tests, scripts."""
+    bad = {}
+    for name, text in sorted(g.files.items()):
+        if name.endswith(".py") and (everything or name.startswith("google/")):
+            try:
+                compile(text, name, "exec", dont_inherit=True)
+            except SyntaxError as e:
+                bad[name] = f"{name}:{e.lineno}: {e.msg}: {(e.text or '').strip()!r}"
+    return bad
+
+
+def render(chk, everything=False):
     g = gen.generate(apis.client_api(), parameter="transport=grpc+rest", service_yaml=apis.CLIENT_SERVICE_YAML)
     chk.programs += 1
     chk.stubs.append(gen.PANDOC_STUB_NOTE)
+    # the harness lifts methods out of these files: a file that does not compile is a (concrete) violation of every
+    # property observed through the emitted client, reported as such instead of as a harness error
+    bad = syntax_errors(g, everything)
+    for name, msg in bad.items():
+        chk.violation(f"emitted-syntax:{name}", "the emitted module does not compile: " + msg,
+                      {"kind": "emitted-syntax", "harness": "harness/h_client.py", "file": name})
+    if bad:
+        raise core.Inconclusive("emitted client code does not compile; the symbolic phase cannot run")
+    chk.ok("emitted-modules-compile", "client_api", n=1)
     return g
 
 
@@ -74,6 +96,8 @@ def run_funcs(chk, g, funcs, kind, timeout, twins=(), canaries=(), partitions=No
 
 def replay(chk, data):
     g = gen.generate(apis.client_api(), parameter="transport=grpc+rest", service_yaml=apis.CLIENT_SERVICE_YAML)
+    if data.get("kind") == "emitted-syntax":
+        return syntax_errors(g, True).get(data["file"])
     env = dict(data.get("env") or {})
     env["VERIF_EMITTED"] = g.outdir
     rep, detail = ch.replay_call(os.path.join(core.VERIF, data["harness"]), data["call"], env)
